@@ -171,6 +171,20 @@ def free_param_docs():
                     pass
                 doc = X.nta(GDECL + gdecl, [tpl(params=ptype, decl=funs + (ctx % e))], "P = T(%s); system P;" % arg)
                 out.append(("param-%s:%s:%s" % (pid, cid, eid), role, doc))
+    # a partial instance forwards its own parameter: a forwarded *reference* to a variable is no compile-time value for the value
+    # parameter it ends in, a forwarded constant is
+    for tpid, tparams, tdecl in (("const-value", "const int p", ""), ("const-value-used-as-size", "const int p", "int arr[p + 1];"), ("value", "int p", "")):
+        tt = tpl(params=tparams, decl=tdecl)
+        for fid, system, role in (
+                ("reference-bound-to-variable", "Q(int &x) = T(x);\nP = Q(v);\nsystem P;", "free"),
+                ("reference-bound-to-array-element", "Q(int &x) = T(x);\nP = Q(va[1]);\nsystem P;", "free"),
+                ("reference-through-two-instances", "Q(int &x) = T(x);\nQ2(int &y) = Q(y);\nP = Q2(v);\nsystem P;", "free"),
+                ("reference-second-of-two-parameters", "Q(const int c0, int &x) = T(x);\nP = Q(1, v);\nsystem P;", "free"),
+                ("const-reference-bound-to-variable", "Q(const int &x) = T(x);\nP = Q(v);\nsystem P;", "free"),
+                ("constant-bound-to-constant", "Q(const int x) = T(x);\nP = Q(k);\nsystem P;", "bound-twin"),
+                ("constant-through-two-instances", "Q(const int x) = T(x);\nQ2(const int y) = Q(y);\nP = Q2(k + 1);\nsystem P;", "bound-twin"),
+                ("constant-bound-to-variable", "Q(const int x) = T(x);\nP = Q(v);\nsystem P;", "free")):
+            out.append(("forwarded-parameter:%s:%s" % (tpid, fid), role, X.nta(GDECL, [tt], system)))
     # the free parameter reaches the array size through a chain of partial instantiations
     T2 = X.template("T", params="const int[0,1] pa, const int[0,1] pb", decl="int arr[pb + 1];", locations=[X.location("id0", "L0")], init="id0")
     for depth in (1, 2, 3):
